@@ -85,6 +85,29 @@ def build_graph(pdb, summ):
     return edges, inv, st
 
 
+def r4_silent(ctx, retsets, summ=None):
+    """first half of R4: the functions the state machine calls never fail silently"""
+    pdb = ctx.pdb
+    st = pdb.enum("rtr_socket_state")
+    inv = {v: k for k, v in st.items()}
+    if summ is None:
+        summ = summaries(pdb, retsets)
+    ctx.rule("C08.R4", "no silent failure: every failure return of the functions the state machine calls either changed the "
+             "socket state or consumed input in a blocking receive; a timeout or a closed connection reported by "
+             "rtr_receive_pdu always leads to a state change or to success in its caller")
+    for c in CALLEES + ["rtr_receive_pdu"]:
+        n = 0
+        for (rv, states, recv, slp) in summ[c]:
+            if rv is not None and rv == frozenset([0]):
+                continue
+            n += 1
+            good = bool(states) or recv >= 1
+            ctx.check(good, "C08.R4", "%s:ret%s" % (c, sorted(rv) if rv else "?"), "rtrlib/rtr/packets.c",
+                      "failure return %s: states set %s, blocking receives %s" % (sorted(rv) if rv else "?", sorted(inv.get(int(s), s) for s in states if s != "?"), recv),
+                      key="C08.R4:%s:silent" % c)
+        ctx.floor("C08.R4", n, 1)
+
+
 def check(ctx):
     pdb = ctx.pdb
     retsets = flow.return_sets(pdb)
@@ -99,23 +122,10 @@ def check(ctx):
         ctx.check(v in arms, "C08.R1", "arm:%s" % name, "rtrlib/rtr/rtr.c", "state %s is handled" % name, key="C08.R1:%s" % name)
     summ = summaries(pdb, retsets)
     # R4
-    ctx.rule("C08.R4", "no silent failure: every failure return of the functions the state machine calls either changed the "
-             "socket state or consumed input in a blocking receive; a timeout or a closed connection reported by "
-             "rtr_receive_pdu always leads to a state change or to success in its caller")
+    r4_silent(ctx, retsets, summ)
     ctx.rule("C08.R5", "transport failures lead to an error state: a failed open goes to RTR_ERROR_TRANSPORT; the transports' "
              "open functions return only TR_ERROR / TR_SUCCESS; a failed query send goes to RTR_ERROR_TRANSPORT; every class "
              "of receive result is either turned into an error state or handed to the caller unchanged")
-    for c in CALLEES + ["rtr_receive_pdu"]:
-        n = 0
-        for (rv, states, recv, slp) in summ[c]:
-            if rv is not None and rv == frozenset([0]):
-                continue
-            n += 1
-            good = bool(states) or recv >= 1
-            ctx.check(good, "C08.R4", "%s:ret%s" % (c, sorted(rv) if rv else "?"), "rtrlib/rtr/packets.c",
-                      "failure return %s: states set %s, blocking receives %s" % (sorted(rv) if rv else "?", sorted(inv.get(int(s), s) for s in states if s != "?"), recv),
-                      key="C08.R4:%s:silent" % c)
-        ctx.floor("C08.R4", n, 1)
     # R4 (second half): results of the receive function that mean "nothing arrived" must not be swallowed
     noprog = {pdb.enum_value("TR_WOULDBLOCK"): "timeout", pdb.enum_value("TR_CLOSED"): "connection closed"}
     intr = pdb.enum_value("TR_INTR")
@@ -300,6 +310,10 @@ def check(ctx):
     with ctx.shared({"C13.R1": ("C08.R9", "every write of the negotiated version strictly lowers it: this is what bounds the number of FAST_RECONNECT "
                                 "rounds, which are exempt from the must-sleep rule (R3)")}):
         C13.r1(ctx, retsets)
+    from specs import C02
+    with ctx.shared({"C02.R3": ("C08.R10", "the expiry purge leaves nothing of the socket behind (every element of the source, both children, both families): "
+                                "a leftover record makes every later full reload fail with a duplicate announcement")}):
+        C02.r3(ctx, retsets)
     ctx.not_decided("the protocol-time bound itself and equality of the records with the cache's data set")
     ctx.not_decided("termination of user-supplied transports")
     ctx.assume("sleep(retry_interval) and blocking receives let time advance; retry_interval >= 1 (C17.R4)")
